@@ -27,6 +27,36 @@
 //
 // Only the standard library is used.
 //
+// A third output, coq/Gen/FuncsLoop.v (flag -oloop), holds functions WITH LOOPS over sequences (and the
+// loop-free functions they call or that need the additional types below), produced by a third,
+// independent generator state in the LOOP fragment (gen.loop; code in loop.go, carrier additions in
+// coq/Base/FLoop.v), which adds to the base fragment:
+//   - sequence-like types as Gallina lists: geom.Sequence (as the list of its Coordinates, accessed
+//     through Length(), Get(i), GetXY(i); its representation as a flat []float64 is not translated),
+//     []T, [N]T, variadic ...T; len(s) / seq.Length() is Z.of_nat (length l); s[i] / seq.Get(i) is
+//     the option-valued [lookup l i]: the statement the access occurs in is wrapped in
+//     `match lookup l i with Some e => .. | None => Unknown "index out of range" end`, so that an
+//     access outside the range is an explicit outcome (never a default element); s[i] = v and
+//     make([]T, n) likewise (list_set, make_list);
+//   - `for i := a; i+c < b; i++ { body }` (also <=, i += k with a positive constant k) and
+//     `for i, x := range s { body }`: structural recursion (for_loop on a fuel computed from the loop
+//     header, the condition being translated literally and tested before every iteration; range_loop
+//     on the list) carrying the tuple of the variables the body assigns; `continue`, `break`, `return`
+//     inside the body are the explicit outcomes SNext / SBreak / SReturn of one iteration;
+//   - ++ and --, the integer operators % and &, panic(..) (the outcome Unknown "panic: .."),
+//     embedded structs (promoted fields), func-typed arguments (option: nil is None; calling nil is an
+//     outcome), local func literals (let-bound functions returning partial T; a variable such a literal
+//     refers to must not be assigned afterwards), math.Inf/Ceil/Floor/Ilogb/Ldexp/MaxFloat64 and
+//     int(x) of a float (operations supplied by the instantiation, see the generated header);
+//     likewise seq.CoordinatesType() and geom.NewSequence(floats, ctype), which depend on the flat
+//     representation of a Sequence (operations f_seq_ctype, f_seq_new).
+//
+// A function that contains a run-time check (or calls one that does) is translated with the result
+// type `partial T`: Known v for a normal return, Unknown reason where the Go code panics.  A run-time
+// check in the right operand of && or || is outside the fragment (the translation hoists the checks
+// of a statement in front of it, in evaluation order).  Statements outside the fragment make the
+// function `untranslatable "<reason>"` exactly as in the base fragment.
+//
 // A second output, coq/Gen/FuncsCarto.v (flag -ocarto), holds the nine map projections of the
 // package carto (constructors, setters, Forward, Reverse and the helpers of carto/util.go), translated
 // by the same machinery over the carrier extended with the elementary functions
@@ -375,11 +405,15 @@ const (
 	kOpaque  // outside the fragment (string, slices, interfaces, ...)
 	kUntyped // numeric constant without a type yet
 	kArray   // extended fragment only: [N]T, translated as an N-tuple (elems[0] is T, n is N)
+	kList    // loop fragment only: Sequence, []T, [N]T, ...T, translated as list T (elems[0] is T)
+	kFunc    // loop fragment only: a func-typed argument (elems[0] the result, elems[1:] the arguments): option (A -> B)
+	kClosure // loop fragment only: a local func literal (elems as kFunc); not a value, only called
 )
 
 type field struct {
 	name string
 	t    *ty
+	emb  bool // loop fragment: an embedded struct (its fields are promoted)
 }
 
 type ty struct {
@@ -425,6 +459,17 @@ func (t *ty) String() string {
 		return "untyped constant"
 	case kArray:
 		return fmt.Sprintf("[%d]%s", t.n, t.elems[0])
+	case kList:
+		if t.name != "" {
+			return t.name
+		}
+		return "[]" + t.elems[0].String()
+	case kFunc, kClosure:
+		var s []string
+		for _, e := range t.elems[1:] {
+			s = append(s, e.String())
+		}
+		return "func(" + strings.Join(s, ", ") + ") " + t.elems[0].String()
 	}
 	return "opaque " + t.name
 }
@@ -454,6 +499,14 @@ func (t *ty) coqType() string {
 			s[i] = t.elems[0].coqType()
 		}
 		return "(" + strings.Join(s, " * ") + ")%type"
+	case kList:
+		return "(list " + t.elems[0].coqType() + ")"
+	case kFunc:
+		s := ""
+		for _, e := range t.elems[1:] {
+			s += e.coqType() + " -> "
+		}
+		return "(option (" + s + t.elems[0].coqType() + "))"
 	}
 	fail("type %s is outside the fragment", t)
 	return ""
@@ -479,6 +532,17 @@ func sameType(a, b *ty) bool {
 		}
 	case kArray:
 		return a.n == b.n && sameType(a.elems[0], b.elems[0])
+	case kList:
+		return sameType(a.elems[0], b.elems[0])
+	case kFunc, kClosure:
+		if len(a.elems) != len(b.elems) {
+			return false
+		}
+		for i := range a.elems {
+			if !sameType(a.elems[i], b.elems[i]) {
+				return false
+			}
+		}
 	}
 	return true
 }
@@ -501,6 +565,7 @@ type funcInfo struct {
 	params   []*ty
 	result   *ty
 	partial  bool
+	eff      bool // loop fragment: the body can panic at run time (indexing, loops, ..): the result is partial T
 }
 
 type item struct {
@@ -523,6 +588,8 @@ type gen struct {
 	okFuncs  []string
 	badFuncs []string
 	ext      bool // the extended fragment (second output, package carto)
+	loop     bool // the loop fragment (third output, coq/Gen/FuncsLoop.v)
+	seqOps   bool // loop fragment: Sequence.CoordinatesType / NewSequence occur (operations f_seq_ctype, f_seq_new)
 }
 
 func (g *gen) pkgOf(rel string) *pkg {
@@ -567,6 +634,15 @@ func (g *gen) typeOf(p *pkg, file *ast.File, e ast.Expr) *ty {
 			}
 		}
 	case *ast.ArrayType:
+		if g.loop {
+			// loop fragment: slices and arrays are lists (the length of an array type is not kept)
+			if _, isEllipsis := x.Len.(*ast.Ellipsis); !isEllipsis {
+				et := g.typeOf(p, file, x.Elt)
+				if et.k == kFloat || et.k == kInt || et.k == kBool || et.k == kStruct {
+					return &ty{k: kList, elems: []*ty{et}}
+				}
+			}
+		}
 		if g.ext && x.Len != nil {
 			if v, ok := p.evalConst(x.Len, 0); ok {
 				if r, ok := ratOfConst(v); ok && r.IsInt() && r.Num().IsInt64() && r.Num().Int64() >= 1 && r.Num().Int64() <= 16 {
@@ -575,6 +651,27 @@ func (g *gen) typeOf(p *pkg, file *ast.File, e ast.Expr) *ty {
 						return &ty{k: kArray, elems: []*ty{et}, n: int(r.Num().Int64())}
 					}
 				}
+			}
+		}
+	case *ast.FuncType:
+		// loop fragment: func(A, ..) B as the type of an argument
+		if g.loop && x.TypeParams == nil && x.Results != nil && len(x.Results.List) == 1 && len(x.Results.List[0].Names) <= 1 {
+			rt := g.typeOf(p, file, x.Results.List[0].Type)
+			elems := []*ty{rt}
+			ok := rt.k == kFloat || rt.k == kInt || rt.k == kBool || rt.k == kStruct
+			for _, f := range x.Params.List {
+				at := g.typeOf(p, file, f.Type)
+				ok = ok && (at.k == kFloat || at.k == kInt || at.k == kBool || at.k == kStruct)
+				cnt := len(f.Names)
+				if cnt == 0 {
+					cnt = 1
+				}
+				for i := 0; i < cnt; i++ {
+					elems = append(elems, at)
+				}
+			}
+			if ok && len(elems) > 1 {
+				return &ty{k: kFunc, elems: elems}
 			}
 		}
 	}
@@ -635,6 +732,14 @@ func (g *gen) namedType(p *pkg, name string) *ty {
 	g.named[k] = nil
 	ts := p.types[name]
 	t := &ty{k: kOpaque, name: name, p: p}
+	if g.loop && p.rel == "geom" && name == "Sequence" && ts != nil {
+		// loop fragment: a Sequence is the list of its Coordinates (accessed through Length, Get, GetXY)
+		if et := g.namedType(p, "Coordinates"); et.k == kStruct {
+			t = &ty{k: kList, name: name, p: p, elems: []*ty{et}}
+			g.named[k] = t
+			return t
+		}
+	}
 	if ts != nil {
 		file := p.files[p.typeFile[name]]
 		switch u := ts.Type.(type) {
@@ -643,12 +748,19 @@ func (g *gen) namedType(p *pkg, name string) *ty {
 			var fs []field
 			for _, f := range u.Fields.List {
 				ft := g.typeOf(p, file, f.Type)
-				if ft.k == kOpaque || ft.k == kError || len(f.Names) == 0 {
+				if g.loop && len(f.Names) == 0 && ft.k == kStruct {
+					// loop fragment: an embedded struct is a field named after its type
+					if id, isId := f.Type.(*ast.Ident); isId {
+						fs = append(fs, field{id.Name, ft, true})
+						continue
+					}
+				}
+				if ft.k == kOpaque || ft.k == kError || ft.k == kFunc || len(f.Names) == 0 {
 					ok = false
 					break
 				}
 				for _, id := range f.Names {
-					fs = append(fs, field{id.Name, ft})
+					fs = append(fs, field{id.Name, ft, false})
 				}
 			}
 			if ok && len(fs) > 0 {
@@ -695,6 +807,15 @@ type ctx struct {
 	// function returns the receiver value as updated by the body)
 	voidRecv   string
 	indexExprs []ast.Expr // index expressions of the assignment targets seen so far (see lvalue)
+	// loop fragment (loop.go)
+	pend     []pending       // run-time checks of the expressions of the statement being translated
+	modes    []int           // innermost last: 0 body of a func literal, 1 body of a loop
+	loops    []string        // innermost last: the state tuple of the enclosing loops
+	closure  int             // depth of func literal bodies
+	resTy    []*ty           // result types of the enclosing func literals
+	capBase  []int           // scope depth at the start of the enclosing func literals
+	captured map[*local]bool // variables a func literal refers to: never assigned afterwards
+	noEff    int             // > 0: inside `let vars := if .. then .. else ..` (no run-time checks there)
 }
 
 var reserved = map[string]bool{"F": true, "ops": true, "as": true, "at": true, "cofix": true, "else": true, "end": true,
@@ -730,6 +851,12 @@ func (c *ctx) pop()  { c.scopes = c.scopes[:len(c.scopes)-1] }
 func (c *ctx) lookup(name string) *local {
 	for i := len(c.scopes) - 1; i >= 0; i-- {
 		if l, ok := c.scopes[i][name]; ok {
+			if len(c.capBase) > 0 && i < c.capBase[len(c.capBase)-1] {
+				if c.captured == nil {
+					c.captured = map[*local]bool{}
+				}
+				c.captured[l] = true
+			}
 			return l
 		}
 	}
@@ -745,7 +872,7 @@ func (c *ctx) fresh(base string) string {
 		n = "v"
 	}
 	cand := n
-	for i := 1; reserved[cand] || (c.g.ext && (extReserved[cand] || strings.HasPrefix(cand, "t_"))) || c.used[cand] || c.g.globals[cand] || strings.HasPrefix(cand, "f_") || strings.HasPrefix(cand, "Mk_"); i++ {
+	for i := 1; reserved[cand] || (c.g.loop && loopReserved[cand]) || (c.g.ext && (extReserved[cand] || strings.HasPrefix(cand, "t_"))) || c.used[cand] || c.g.globals[cand] || strings.HasPrefix(cand, "f_") || strings.HasPrefix(cand, "Mk_"); i++ {
 		cand = fmt.Sprintf("%s_%d", n, i)
 	}
 	c.used[cand] = true
@@ -830,6 +957,8 @@ func (c *ctx) zero(t *ty) string {
 			s[i] = c.zero(t.elems[0])
 		}
 		return c.tuple(s)
+	case kList:
+		return "(@nil " + t.elems[0].coqType() + ")"
 	}
 	fail("no zero value of type %s in the fragment", t)
 	return ""
@@ -936,6 +1065,9 @@ func (c *ctx) expr(e ast.Expr, hint *ty) val {
 			if l.t.k == kOpaque {
 				fail("uses %s of type %s (outside the fragment)", x.Name, l.t)
 			}
+			if l.t.k == kClosure {
+				fail("the func literal %s is used other than in a call", x.Name)
+			}
 			return val{code: l.coq, t: l.t}
 		}
 		switch x.Name {
@@ -951,6 +1083,9 @@ func (c *ctx) expr(e ast.Expr, hint *ty) val {
 		}
 		fail("identifier %s is not a local variable or a numeric constant", x.Name)
 	case *ast.IndexExpr:
+		if c.g.loop {
+			return c.indexList(x)
+		}
 		if !c.g.ext {
 			break
 		}
@@ -969,6 +1104,11 @@ func (c *ctx) expr(e ast.Expr, hint *ty) val {
 					return c.g.constant(q, cs)
 				}
 			}
+			if c.g.loop && c.p.consts[id.Name] == nil && !c.p.vars[id.Name] && importPath(c.file, id.Name) == "math" && x.Sel.Name == "MaxFloat64" {
+				// (2^53 - 1) * 2^971, the exact value of the constant
+				m := new(big.Int).Sub(new(big.Int).Lsh(big.NewInt(1), 53), big.NewInt(1))
+				return val{t: &ty{k: kUntyped}, c: new(big.Rat).SetInt(m.Lsh(m, 971))}
+			}
 			if c.p.consts[id.Name] == nil {
 				fail("%s.%s is outside the fragment", id.Name, x.Sel.Name)
 			}
@@ -976,6 +1116,9 @@ func (c *ctx) expr(e ast.Expr, hint *ty) val {
 		r := c.expr(x.X, nil)
 		f, ok := c.fieldOf(r.t, x.Sel.Name)
 		if !ok {
+			if v, ok := c.promoted(r, x.Sel.Name); ok {
+				return v
+			}
 			fail("%s has no field %s in the fragment", r.t, x.Sel.Name)
 		}
 		return val{code: "(" + proj(r.t, f.name) + " " + r.code + ")", t: f.t}
@@ -1127,7 +1270,11 @@ func (c *ctx) binary(x *ast.BinaryExpr, hint *ty) val {
 	switch x.Op {
 	case token.LAND, token.LOR:
 		a := c.expr(x.X, tBool)
+		pmark := len(c.pend)
 		b := c.expr(x.Y, tBool)
+		if len(c.pend) != pmark {
+			fail("a run-time check (indexing, call that can panic) in the right operand of %s", x.Op)
+		}
 		if a.t.k != kBool || b.t.k != kBool {
 			fail("%s on %s and %s", x.Op, a.t, b.t)
 		}
@@ -1153,6 +1300,27 @@ func (c *ctx) binary(x *ast.BinaryExpr, hint *ty) val {
 		f := "Z.shiftl"
 		if x.Op == token.SHR {
 			f = "Z.shiftr"
+		}
+		return val{code: "(" + f + " " + a.code + " " + b.code + ")", t: a.t}
+	}
+	if (x.Op == token.REM || x.Op == token.AND) && c.g.loop {
+		// loop fragment: % and & on integers (Z.rem truncates like Go; Z.land on non-negative values)
+		a := c.expr(x.X, hint)
+		b := c.expr(x.Y, hint)
+		if a.t.k == kUntyped && b.t.k == kUntyped {
+			fail("operator %s on two constants", x.Op)
+		}
+		if a.t.k == kUntyped {
+			a = c.constAt(a.c, b.t)
+		} else if b.t.k == kUntyped {
+			b = c.constAt(b.c, a.t)
+		}
+		if a.t.k != kInt || !sameType(a.t, b.t) {
+			fail("operator %s on %s and %s", x.Op, a.t, b.t)
+		}
+		f := "Z.rem"
+		if x.Op == token.AND {
+			f = "Z.land"
 		}
 		return val{code: "(" + f + " " + a.code + " " + b.code + ")", t: a.t}
 	}
@@ -1306,6 +1474,12 @@ func (c *ctx) composite(x *ast.CompositeLit) val {
 		fail("composite literal without a type")
 	}
 	t := c.g.typeOf(c.p, c.file, x.Type)
+	if t.k == kList && c.g.loop {
+		if t.name != "" {
+			fail("composite literal of type %s (its representation is not translated)", t)
+		}
+		return c.listLiteral(x, t)
+	}
 	if t.k == kArray {
 		if len(x.Elts) != t.n {
 			fail("array literal of %s with %d elements", t, len(x.Elts))
@@ -1393,8 +1567,16 @@ func (c *ctx) call(x *ast.CallExpr, hint *ty) val {
 	}
 	switch f := unparen(x.Fun).(type) {
 	case *ast.Ident:
-		if c.lookup(f.Name) != nil {
+		if l := c.lookup(f.Name); l != nil {
+			if c.g.loop && (l.t.k == kFunc || l.t.k == kClosure) {
+				return c.callLocal(l, f.Name, x.Args)
+			}
 			fail("call of the function value %s", f.Name)
+		}
+		if c.g.loop {
+			if v, ok := c.builtinCall(f.Name, x.Args); ok {
+				return v
+			}
 		}
 		// conversion
 		if _, isFunc := c.p.funcs[f.Name]; !isFunc {
@@ -1412,6 +1594,8 @@ func (c *ctx) call(x *ast.CallExpr, hint *ty) val {
 					return val{code: v.code, t: t}
 				case v.t.k == kInt && t.k == kFloat:
 					return val{code: "(f_of_Z ops " + v.code + ")", t: t}
+				case v.t.k == kFloat && t.k == kInt && c.g.loop:
+					return val{code: "(f_to_int " + v.code + ")", t: t}
 				}
 				fail("conversion %s(%s) is outside the fragment", f.Name, v.t)
 			}
@@ -1441,6 +1625,11 @@ func (c *ctx) call(x *ast.CallExpr, hint *ty) val {
 					}
 					return val{code: s + ")", t: tFloat}
 				}
+				if c.g.loop {
+					if v, ok := c.mathLoop(f.Sel.Name, x.Args); ok {
+						return v
+					}
+				}
 				m, ok := mathFuncs[f.Sel.Name]
 				if !ok {
 					fail("math.%s is outside the fragment", f.Sel.Name)
@@ -1465,6 +1654,9 @@ func (c *ctx) call(x *ast.CallExpr, hint *ty) val {
 		}
 		// method call: the static type of the receiver selects the method
 		recvT := c.staticType(f.X)
+		if c.g.loop && recvT != nil && recvT.k == kList && recvT.name == "Sequence" {
+			return c.sequenceMethod(f.X, f.Sel.Name, x.Args)
+		}
 		if recvT == nil || recvT.name == "" || recvT.p == nil {
 			fail("method call %s on a receiver whose type the generator cannot determine", exprString(x.Fun))
 		}
@@ -1490,7 +1682,13 @@ func (c *ctx) staticType(e ast.Expr) *ty {
 		}
 		return nil
 	}
-	return c.expr(e, nil).t
+	// only the type is wanted: the run-time checks of e are registered when e is translated as the receiver
+	pmark, tmp := len(c.pend), c.tmp
+	t := c.expr(e, nil).t
+	if len(c.pend) > pmark {
+		c.pend, c.tmp = c.pend[:pmark], tmp
+	}
+	return t
 }
 
 func (c *ctx) callFunc(q *pkg, key string, recv ast.Expr, args []ast.Expr) val {
@@ -1501,7 +1699,7 @@ func (c *ctx) callFunc(q *pkg, key string, recv ast.Expr, args []ast.Expr) val {
 	if fi.state == 3 {
 		fail("calls %s.%s, which is not translated: %s", q.name, key, fi.reason)
 	}
-	if fi.partial {
+	if fi.partial && !c.g.loop {
 		fail("calls %s.%s, which is only partially translated", q.name, key)
 	}
 	all := args
@@ -1521,7 +1719,14 @@ func (c *ctx) callFunc(q *pkg, key string, recv ast.Expr, args []ast.Expr) val {
 			s += " " + c.errIsNil(a)
 			continue
 		}
+		if pt.k == kFunc {
+			s += " " + c.funcArg(a, pt)
+			continue
+		}
 		s += " " + c.conv(c.expr(a, pt), pt, fmt.Sprintf("argument %d of %s", i, key)).code
+	}
+	if fi.partial || fi.eff {
+		return val{code: c.bindPartial(s + ")"), t: fi.result}
 	}
 	return val{code: s + ")", t: fi.result}
 }
@@ -1536,6 +1741,9 @@ func (c *ctx) errIsNil(e ast.Expr) string {
 		}
 		if l := c.lookup(x.Name); l != nil && l.t.k == kError {
 			return l.coq
+		}
+		if l := c.lookup(x.Name); l != nil && l.t.k == kFunc {
+			return "(is_nil_func " + l.coq + ")"
 		}
 	case *ast.CompositeLit:
 		// a struct value stored in the interface: never nil
@@ -1582,7 +1790,10 @@ func (c *ctx) tuple(parts []string) string {
 }
 
 func (c *ctx) ret(code string) string {
-	if c.fi.partial {
+	if c.inLoop() {
+		return "(SReturn " + code + ")"
+	}
+	if c.isPartial() {
 		return "(Known " + code + ")"
 	}
 	return code
@@ -1594,6 +1805,7 @@ func (c *ctx) stmts(list []ast.Stmt, k func(n int) string, n int) (out string) {
 	}
 	if c.fi.partial && c.noCatch == 0 {
 		depth := len(c.scopes)
+		pdepth, mdepth, ldepth := len(c.pend), len(c.modes), len(c.loops)
 		defer func() {
 			if r := recover(); r != nil {
 				e, ok := r.(trErr)
@@ -1601,18 +1813,46 @@ func (c *ctx) stmts(list []ast.Stmt, k func(n int) string, n int) (out string) {
 					panic(r)
 				}
 				c.scopes = c.scopes[:depth]
-				out = ind(n) + "(Unknown " + coqString(string(e)) + ")"
+				c.pend, c.modes, c.loops = c.pend[:pdepth], c.modes[:mdepth], c.loops[:ldepth]
+				out = ind(n) + c.failCode(coqString(string(e)))
 			}
 		}()
 	}
 	rest := func(m int) string { return c.stmts(list[1:], k, m) }
+	mark := len(c.pend) // loop fragment: the run-time checks of this statement's expressions are wrapped around it
 	switch s := list[0].(type) {
 	case *ast.EmptyStmt:
 		return rest(n)
 	case *ast.ReturnStmt:
-		return ind(n) + c.ret(c.returnValue(s))
+		v := c.returnValue(s)
+		return c.wrapPend(mark, ind(n)+c.ret(v), n)
 	case *ast.BlockStmt:
 		return c.block(s.List, rest, n)
+	case *ast.ForStmt:
+		if c.g.loop {
+			return c.forStmt(s, rest, n)
+		}
+	case *ast.RangeStmt:
+		if c.g.loop {
+			return c.rangeStmt(s, rest, n)
+		}
+	case *ast.IncDecStmt:
+		if c.g.loop {
+			op := token.ADD_ASSIGN
+			if s.Tok == token.DEC {
+				op = token.SUB_ASSIGN
+			}
+			as := &ast.AssignStmt{Lhs: []ast.Expr{s.X}, Tok: op, Rhs: []ast.Expr{&ast.BasicLit{Kind: token.INT, Value: "1"}}}
+			return c.stmts(append([]ast.Stmt{as}, list[1:]...), k, n)
+		}
+	case *ast.BranchStmt:
+		if c.g.loop {
+			return c.branchStmt(s, n)
+		}
+	case *ast.ExprStmt:
+		if c.g.loop {
+			return c.exprStmt(s, n)
+		}
 	case *ast.DeclStmt:
 		gd, ok := s.Decl.(*ast.GenDecl)
 		if !ok || gd.Tok != token.VAR {
@@ -1649,13 +1889,21 @@ func (c *ctx) stmts(list []ast.Stmt, k func(n int) string, n int) (out string) {
 				fmt.Fprintf(&b, "%slet %s := %s in\n", ind(n), c.declare(id.Name, types[i]), codes[i])
 			}
 		}
-		return b.String() + rest(n)
+		return c.wrapPend(mark, b.String()+rest(n), n)
 	case *ast.AssignStmt:
-		return c.assign(s, n) + rest(n)
+		if c.g.loop {
+			if code, ok := c.specialAssign(s, n); ok {
+				return c.wrapPend(mark, code+rest(n), n)
+			}
+		}
+		code := c.assign(s, n)
+		return c.wrapPend(mark, code+rest(n), n)
 	case *ast.IfStmt:
-		return c.ifStmt(s, rest, n)
+		code := c.ifStmt(s, rest, n)
+		return c.wrapPend(mark, code, n)
 	case *ast.SwitchStmt:
-		return c.switchStmt(s, rest, n)
+		code := c.switchStmt(s, rest, n)
+		return c.wrapPend(mark, code, n)
 	}
 	fail("statement %s is outside the fragment", stmtName(list[0]))
 	return ""
@@ -1699,14 +1947,14 @@ func (c *ctx) block(list []ast.Stmt, k func(n int) string, n int) string {
 }
 
 func (c *ctx) returnValue(s *ast.ReturnStmt) string {
-	rt := c.fi.result
+	rt := c.resultType()
 	var want []*ty
 	if rt.k == kTuple {
 		want = rt.elems
 	} else {
 		want = []*ty{rt}
 	}
-	if len(s.Results) == 0 && c.voidRecv != "" {
+	if len(s.Results) == 0 && c.voidRecv != "" && c.closure == 0 {
 		l := c.lookup(c.voidRecv)
 		if l == nil {
 			fail("receiver %s is not in scope", c.voidRecv)
@@ -1714,7 +1962,7 @@ func (c *ctx) returnValue(s *ast.ReturnStmt) string {
 		return l.coq
 	}
 	if len(s.Results) == 0 {
-		if len(c.named) != len(want) {
+		if len(c.named) != len(want) || c.closure > 0 {
 			fail("bare return without named results")
 		}
 		var parts []string
@@ -1916,6 +2164,7 @@ func (c *ctx) assign(s *ast.AssignStmt, n int) string {
 		if lv == nil {
 			fail("assignment to %s, which is not a local variable", root)
 		}
+		c.checkNotCaptured(lv, root)
 		fmt.Fprintf(&b, "%slet %s := %s in\n", ind(n), lv.coq, c.update(lv.coq, lv.t, path, vals[i].code, vals[i].t, exprString(l)))
 	}
 	return b.String()
@@ -1979,6 +2228,7 @@ func (c *ctx) bindTarget(id *ast.Ident, t *ty, tok token.Token) string {
 	if !sameType(l.t, t) {
 		fail("assignment to %s: have %s, want %s", id.Name, t, l.t)
 	}
+	c.checkNotCaptured(l, id.Name)
 	return l.coq
 }
 
@@ -1994,6 +2244,9 @@ func (c *ctx) cond(e ast.Expr) string {
 // is translated as  let '(v1, .., vn) := if c then .. else .. in  (the variables it assigns)
 func assignOnly(list []ast.Stmt, roots *[]string, c *ctx) bool {
 	for _, s := range list {
+		if id, isInc := s.(*ast.IncDecStmt); isInc && c.g.loop {
+			s = &ast.AssignStmt{Lhs: []ast.Expr{id.X}, Tok: token.ADD_ASSIGN, Rhs: []ast.Expr{id.X}}
+		}
 		a, ok := s.(*ast.AssignStmt)
 		if !ok || a.Tok == token.DEFINE {
 			return false
@@ -2046,20 +2299,9 @@ func (c *ctx) ifStmt(s *ast.IfStmt, rest func(n int) string, n int) string {
 		}
 	}
 	if simple && len(roots) > 0 {
-		var names []string
-		for _, r := range roots {
-			names = append(names, c.lookup(r).coq)
+		if code, ok := c.simpleIf(s, elseList, roots, cond, n); ok {
+			return code + rest(n)
 		}
-		end := func(m int) string { return ind(m) + c.tuple(names) }
-		c.noCatch++
-		thenCode := c.block(s.Body.List, end, n+2)
-		elseCode := c.block(elseList, end, n+2)
-		c.noCatch--
-		pat := c.tuple(names)
-		if len(names) > 1 {
-			pat = "'" + pat
-		}
-		return fmt.Sprintf("%slet %s :=\n%sif %s then\n%s\n%selse\n%s in\n", ind(n), pat, ind(n+1), cond, thenCode, ind(n+1), elseCode) + rest(n)
 	}
 	thenCode := c.block(s.Body.List, rest, n+1)
 	var elseCode string
@@ -2074,6 +2316,39 @@ func (c *ctx) ifStmt(s *ast.IfStmt, rest func(n int) string, n int) string {
 		fail("else branch %T", s.Else)
 	}
 	return fmt.Sprintf("%sif %s then\n%s\n%selse\n%s", ind(n), cond, thenCode, ind(n), elseCode)
+}
+
+// if cond { assignments } else { assignments }  as  let '(v1, .., vn) := if cond then .. else .. in
+// (loop fragment: when a branch needs a run-time check the attempt is abandoned, ok = false)
+func (c *ctx) simpleIf(s *ast.IfStmt, elseList []ast.Stmt, roots []string, cond string, n int) (code string, ok bool) {
+	var names []string
+	for _, r := range roots {
+		names = append(names, c.lookup(r).coq)
+	}
+	end := func(m int) string { return ind(m) + c.tuple(names) }
+	depth, pdepth, noCatch, noEff := len(c.scopes), len(c.pend), c.noCatch, c.noEff
+	if c.g.loop {
+		defer func() {
+			if r := recover(); r != nil {
+				if _, is := r.(effInSimple); !is {
+					panic(r)
+				}
+				c.scopes, c.pend, c.noCatch, c.noEff = c.scopes[:depth], c.pend[:pdepth], noCatch, noEff
+				code, ok = "", false
+			}
+		}()
+	}
+	c.noCatch++
+	c.noEff++
+	thenCode := c.block(s.Body.List, end, n+2)
+	elseCode := c.block(elseList, end, n+2)
+	c.noEff--
+	c.noCatch--
+	pat := c.tuple(names)
+	if len(names) > 1 {
+		pat = "'" + pat
+	}
+	return fmt.Sprintf("%slet %s :=\n%sif %s then\n%s\n%selse\n%s in\n", ind(n), pat, ind(n+1), cond, thenCode, ind(n+1), elseCode), true
 }
 
 func (c *ctx) switchStmt(s *ast.SwitchStmt, rest func(n int) string, n int) string {
@@ -2158,6 +2433,11 @@ func (g *gen) translate(p *pkg, key string, partial bool) *funcInfo {
 		where = p.rel + "/" + p.funcFile[key]
 	}
 	def, err := g.translateBody(p, fd, fi)
+	if err == needEffectMarker {
+		// loop fragment: the body contains a run-time check: translated again, with the result type partial T
+		fi.eff, fi.params, fi.dropped, fi.variadic = true, nil, nil, false
+		def, err = g.translateBody(p, fd, fi)
+	}
 	if err != "" {
 		fi.state, fi.reason = 3, err
 		warn("%s:%s not translated: %s", where, key, err)
@@ -2172,6 +2452,9 @@ func (g *gen) translate(p *pkg, key string, partial bool) *funcInfo {
 	if partial {
 		note = "  (partial: paths outside the fragment yield Unknown)"
 	}
+	if fi.eff {
+		note += "  (Unknown: the Go code panics at run time)"
+	}
 	g.items = append(g.items, item{comment: fmt.Sprintf("%s:%s%s", where, key, note), def: def})
 	g.okFuncs = append(g.okFuncs, where+":"+key)
 	return fi
@@ -2180,6 +2463,10 @@ func (g *gen) translate(p *pkg, key string, partial bool) *funcInfo {
 func (g *gen) translateBody(p *pkg, fd *ast.FuncDecl, fi *funcInfo) (def string, err string) {
 	defer func() {
 		if r := recover(); r != nil {
+			if _, is := r.(needEffect); is {
+				err = needEffectMarker
+				return
+			}
 			e, ok := r.(trErr)
 			if !ok {
 				panic(r)
@@ -2239,9 +2526,13 @@ func (g *gen) translateBody(p *pkg, fd *ast.FuncDecl, fi *funcInfo) (def string,
 	}
 	for _, f := range fd.Type.Params.List {
 		t := g.typeOf(p, c.file, f.Type)
-		if _, variadic := f.Type.(*ast.Ellipsis); variadic {
+		if el, variadic := f.Type.(*ast.Ellipsis); variadic {
 			t = &ty{k: kOpaque, name: "variadic"}
-			fi.variadic = true
+			if et := g.typeOf(p, c.file, el.Elt); g.loop && (et.k == kFloat || et.k == kInt || et.k == kBool || et.k == kStruct) {
+				t = &ty{k: kList, elems: []*ty{et}} // loop fragment: ...T is a list
+			} else {
+				fi.variadic = true
+			}
 		}
 		if len(f.Names) == 0 {
 			addParam("", t)
@@ -2264,7 +2555,7 @@ func (g *gen) translateBody(p *pkg, fd *ast.FuncDecl, fi *funcInfo) (def string,
 	var rnames []string
 	for _, f := range fd.Type.Results.List {
 		t := g.typeOf(p, c.file, f.Type)
-		if t.k == kOpaque {
+		if t.k == kOpaque || t.k == kFunc {
 			fail("result type %s is outside the fragment", t)
 		}
 		if len(f.Names) == 0 {
@@ -2302,7 +2593,7 @@ func (g *gen) translateBody(p *pkg, fd *ast.FuncDecl, fi *funcInfo) (def string,
 		return ""
 	}, 1)
 	rtype := fi.result.coqType()
-	if fi.partial {
+	if fi.partial || fi.eff {
 		rtype = "partial " + rtype
 	}
 	sig := fi.coq
@@ -2329,6 +2620,24 @@ const headerFuncs = `(* GENERATED FILE - do not edit.  Written by tools/gen_func
    which breaks its obligation. *)
 From Coq Require Import ZArith Bool String.
 From SF Require Import Base.FOps.
+Open Scope bool_scope.
+`
+
+const headerLoop = `(* GENERATED FILE - do not edit.  Written by tools/gen_funcs (tools/gen_funcs.sh, third output) from
+   the Go source of the library under test, on every run of tools/check.py: functions with loops
+   over sequences, and the loop-free functions they call.  Each definition is the body of one Go
+   function, translated operator by operator, statement by statement from the syntax tree into
+   Gallina over the abstract ordinate carrier of coq/Base/FOps.v; nothing is simplified.  The
+   translation of sequences, indexing and loops is described in coq/Base/FLoop.v: a Sequence is the
+   list of its Coordinates, an index outside the range is the explicit outcome
+   [Unknown "index out of range"], a loop is a structural recursion carrying the assigned variables,
+   with continue / break / return as explicit outcomes of one iteration.  The obligations that the
+   hand-written models compute the same functions on all arguments (lists of any length) are in
+   coq/Proofs/Funcs_tie_Loop_*.v.  A function that could not be located or that leaves the
+   translated fragment is set to [untranslatable "reason"], which breaks its obligation. *)
+From Coq Require Import ZArith Bool String List.
+From SF Require Import Base.FOps Base.FLoop.
+Import ListNotations.
 Open Scope bool_scope.
 `
 
@@ -2381,6 +2690,14 @@ func (g *gen) emit(header string, floatConsts []item) []byte {
 			fmt.Fprintf(&b, "\n(* %s *)\n%s\n", cmt(it.comment), it.def)
 		}
 		b.WriteString("\n(* ---- functions *)\n")
+	} else if g.loop {
+		b.WriteString("\n(* ==================== function bodies *)\nSection Funcs.\nContext {F : Type} (ops : fops F).\n")
+		b.WriteString("(* operations of package math outside the record fops: a definition that uses one takes it as an\n   additional argument (after ops, in this order) *)\n")
+		b.WriteString("Context (f_inf : Z -> F) (f_ceil : F -> F) (f_floor : F -> F) (f_to_int : F -> Z) (f_ilogb : F -> Z) (f_ldexp : F -> Z -> F).\n")
+		if g.seqOps {
+			b.WriteString("(* geom.Sequence is translated as the list of its Coordinates; its flat representation is not: the\n   coordinates type of a sequence and the constructor geom.NewSequence(floats, ctype) are operations *)\n")
+			b.WriteString("Context (f_seq_ctype : list (geom_Coordinates F) -> Z) (f_seq_new : list F -> Z -> list (geom_Coordinates F)).\n")
+		}
 	} else {
 		b.WriteString("\n(* ==================== function bodies *)\nSection Funcs.\nContext {F : Type} (ops : fops F).\n")
 	}
@@ -2447,6 +2764,7 @@ func main() {
 	repo := flag.String("repo", "", "root of the Go repository (default $VERIF_REPO or /repo)")
 	out := flag.String("o", "", "output file of the kernel functions, coq/Gen/Funcs.v (- for stdout)")
 	outCarto := flag.String("ocarto", "", "output file of the package carto, coq/Gen/FuncsCarto.v (- for stdout)")
+	outLoop := flag.String("oloop", "", "output file of the functions with loops over sequences, coq/Gen/FuncsLoop.v (- for stdout)")
 	flag.Parse()
 	if *repo == "" {
 		*repo = os.Getenv("VERIF_REPO")
@@ -2454,7 +2772,7 @@ func main() {
 	if *repo == "" {
 		*repo = "/repo"
 	}
-	if *out == "" && *outCarto == "" {
+	if *out == "" && *outCarto == "" && *outLoop == "" {
 		*out = "-"
 	}
 	if *out != "" {
@@ -2476,5 +2794,14 @@ func main() {
 			g.translate(g.pkgOf(r.pkg), r.key, r.partial)
 		}
 		writeOut(*outCarto, g.emit(headerCarto, fc))
+	}
+	if *outLoop != "" {
+		warnings = nil
+		g := newGen(*repo, false)
+		g.loop = true
+		for _, r := range loopRoots {
+			g.translate(g.pkgOf(r.pkg), r.key, r.partial)
+		}
+		writeOut(*outLoop, g.emit(headerLoop, nil))
 	}
 }
